@@ -35,13 +35,15 @@ func smallEnv(e tmpl.Env) bool {
 
 func init() {
 	register("C15", "other", func(c *Ctx) {
-		c.Run.Explainf("C15 (regeneration stable in the presence of earlier output) — only the structural core of the second sentence is decided: in the run function of package main (found by role: the error-returning function main tests), on every path on which -rm and -out are set, os.Remove of exactly the -out path executes before moq.New, the only entry to the package loader (go/cfg reachability with the Remove node deleted and branches pruned by the flag assumptions); an error other than not-exist aborts before the load; a successful removal continues to it. Two necessary conditions of the first sentence are decided as well: the -out file is replaced as a whole (a single os.WriteFile of the complete buffer; no other file-writing API in package main) and a new import starts with exactly the alias the loaded source files — moq's previous output included — use for its canonical path. NOT decided: the fixed-point sentence (whether aliases harvested from moq's own previous output reproduce the same output depends on the values the alias algorithm computes).")
+		c.Run.Explainf("C15 (regeneration stable in the presence of earlier output) — only the structural core of the second sentence is decided: in the run function of package main (found by role: the error-returning function main tests), on every path on which -rm and -out are set, os.Remove of exactly the -out path executes before moq.New, the only entry to the package loader (go/cfg reachability with the Remove node deleted and branches pruned by the flag assumptions); an error other than not-exist aborts before the load; a successful removal continues to it. Three necessary conditions of the first sentence are decided as well: the -out file is replaced as a whole (a single os.WriteFile of the complete buffer; no other file-writing API in package main), a new import starts with exactly the alias the loaded source files — moq's previous output included — use for its canonical path, and name allocation and import registration never read the declarations of the loaded package (G-STABLE/source-scope: only the interface lookup does). NOT decided: the fixed-point sentence (whether aliases harvested from moq's own previous output reproduce the same output depends on the values the alias algorithm computes).")
 		c.Run.Assumef("os.Remove, errors.Is/os.ErrNotExist behave as documented; packages are loaded only through moq.New (checked: it is the only call into pkg/moq before generation)")
 		cliRemove(c)
 		cliFileReplaced(c)
 		// the aliases moq reads back from its own earlier output: a new import starts with exactly the alias found in the source files
 		gen.CheckImports(c.Run, c.Prog)
 		importTables(c)
+		// ... and nothing else of the loaded package (which contains that earlier output) reaches naming or aliasing
+		gen.CheckSourceScopeReaders(c.Run, c.Prog)
 		c.Run.Floor("G-MOCK/qualifier-final", 1)
 		c.RunSkeletons(SkelOpts{Rules: []string{"G-MOCK/qualifier-final"}, Env: smallEnv, NoExpand: true})
 		c.Run.Floor("G-RM/before-load", 1)
